@@ -150,14 +150,14 @@ def run(ctx):
         lines.append(dumps([S('mkprop'), property_to_wire(q)]))
         pending.append(('property', pinp, False))
     # ---- signature coverage: every function overload / operator at every base kind its parameters admit ----------------
-    from sigfam import signature_family
+    from sigfam import signature_family, sibling_family
     from gen import DEFAULT_SCHEMA
     from raw import build_api
     from hpl.ast.predicates import predicate_from_expression
     ddesc = SC.from_gen_schema(DEFAULT_SCHEMA)
     dtok = SC.to_token(ddesc)
     stats['signature_cases'] = 0
-    for r, what in signature_family():
+    for r, what in signature_family() + sibling_family():
         stats['signature_cases'] += 1
         try:
             txt = render(r, None, 'min')
